@@ -6,6 +6,22 @@ import guard
 INFINITE_ITER = re.compile(r"RangeFrom<|iter::Repeat<|iter::Cycle<|iter::RepeatWith<|iter::Successors<|iter::FromFn<|iter::sources::|io::Lines|io::Bytes|mpsc::")
 
 
+def finite_part(ity):
+    """the iterator type with everything below a `Take<..>` adaptor removed: take(n) of anything yields at most n items."""
+    out, i = "", 0
+    while True:
+        m = re.search(r"iter::Take<", ity[i:])
+        if not m:
+            return out + ity[i:]
+        out += ity[i:i + m.start()] + "iter::Take<..>"
+        j = i + m.end()
+        depth = 1
+        while j < len(ity) and depth:
+            depth += {"<": 1, ">": -1}.get(ity[j], 0)
+            j += 1
+        i = j
+
+
 def loop_witness(F, b, head, blocks):
     """classify one natural loop: returns (kind, detail).
     kind 'iter'  : leaves when `Iterator::next` of a finite foreign iterator returns None
@@ -35,7 +51,7 @@ def loop_witness(F, b, head, blocks):
             if d["l"] in cond_locals(b, t["d"]):
                 m = re.match(r"^<(.*) as std::iter::Iterator>::next$", c.full or "")
                 ity = m.group(1) if m else (c.full or "")
-                if INFINITE_ITER.search(ity):
+                if INFINITE_ITER.search(finite_part(ity)):
                     return ("other", "iterator type %s is not finite" % ity)
                 if re.match(r"^std::ops::Range(Inclusive)?<", ity):
                     okb, why = range_bound_ok(b, c)
